@@ -37,6 +37,28 @@ def handle : List String → String
     match openWorkbook r suffix with
     | .opened c => c
     | .notImplemented => "NotImplementedError"
+  | "sheet" :: ops =>
+    -- one Sheet object over its life: `S=<name>.<name>…` set_schema (positions 0..), `L=h` / `L=n` set_schema_loader,
+    -- `P=<rows>` one pass; answer: per pass `<schema>:<rows delivered>`
+    let showRows : List RowData → String := fun rows =>
+      if rows.isEmpty then "!" else joinWith "/" (rows.map fun r => if r.isEmpty then "~" else joinWith "." (r.map encCell))
+    let showSchema : Option (List (String × Nat)) → String := fun
+      | none => "none"
+      | some sch => if sch.isEmpty then "~" else joinWith "." (sch.map fun p => encCell p.1 ++ "@" ++ toString p.2)
+    let parseOp : String → Option SOp := fun o =>
+      match o.splitOn "=" with
+      | ["S", names] => some (.setSchema (((parseRow names).zipIdx).map fun p => (p.1, p.2)))
+      | ["L", "h"] => some (.setLoader .headingRow)
+      | ["L", "n"] => some (.setLoader .none)
+      | ["P", rows] => some (.pass (if rows = "!" then [] else (rows.splitOn "/").map parseRow))
+      | _ => none
+    match ops.mapM parseOp with
+    | none => "bad-op"
+    | some l =>
+      let (_, outs) := l.foldl (fun (acc : Sheet × List String) op =>
+        let (s', o) := acc.1.step op
+        (s', match o with | some (sch, rows) => acc.2 ++ [showSchema sch ++ ":" ++ showRows rows] | none => acc.2)) (({} : Sheet), [])
+      if outs.isEmpty then "-" else joinWith "|" outs
   | "life" :: ops =>
     let parse : String → Option LOp := fun
       | "open" => some .openFile | "iter" => some .iterate | "raise" => some .raise | "exit" => some .exit | "close" => some .close
